@@ -110,6 +110,16 @@ def main():
         sys.exit(3)
     mod = importlib.import_module('checks.' + prop.lower())
     obls = mod.obligations(tier, seed)
+    if tier != 'quick':
+        # the obligations of the quick tier first (known to be cheap), the deeper ones afterwards: when the tier budget runs out,
+        # what is skipped is the expensive tail, not the basics
+        def key(o):
+            return (o[0], json.dumps({k: v for k, v in o[1].items() if not k.startswith('_')}, sort_keys=True, default=str))
+        try:
+            qk = {key(o) for o in mod.obligations('quick', seed)}
+            obls = [o for o in obls if key(o) in qk] + [o for o in obls if key(o) not in qk]
+        except Exception:
+            pass
     if a.only:
         obls = [o for o in obls if a.only in (o[0] + json.dumps(o[1], sort_keys=True))]
     budget = getattr(mod, 'BUDGET', {}).get(tier, {})
